@@ -59,9 +59,36 @@ pub fn with_word(n: usize, word: u32, count: usize) -> Vec<(Vec<u8>, Vec<u8>)> {
     out
 }
 
+/// (salt, message) pairs whose point of degree n has the coefficient 0 at position `pos` (the last one: a point that
+/// looks like a polynomial of smaller degree; one string in 12289)
+pub fn with_zero_at(n: usize, pos: usize, count: usize) -> Vec<(Vec<u8>, Vec<u8>)> {
+    let mut out = vec![];
+    let mut i: u64 = 0;
+    while out.len() < count && i < 400_000 {
+        let mut salt = vec![0xC3u8; 40];
+        salt[..8].copy_from_slice(&i.to_le_bytes());
+        let mut m = salt.clone();
+        m.push(b'z');
+        let (c, _) = reference(&m, n);
+        if c[pos] == 0 {
+            out.push((salt, vec![b'z']));
+        }
+        i += 1;
+    }
+    out
+}
+
 pub fn generate(tier: &str, rng: &mut Prng) -> Vec<Case> {
     let mut ops = vec![];
     let thorough = tier == "thorough";
+    // points whose last (or first) coefficient is zero
+    for (n, pos) in [(512usize, 511usize), (1024, 1023), (512, 0)] {
+        for (salt, msg) in with_zero_at(n, pos, if thorough { 3 } else { 1 }) {
+            let mut m = salt.clone();
+            m.extend_from_slice(&msg);
+            ops.push(Case::new(format!("hash_to_point {n} {}", hex(&m))));
+        }
+    }
     // the samples at the acceptance boundary and at the ends of the 16-bit range
     for word in [61444u32, 61445, 61446, 0, 12288, 12289, 65535] {
         for (salt, msg) in with_word(512, word, if thorough { 6 } else { 2 }) {
